@@ -26,6 +26,14 @@ class Boom(Exception):
     pass
 
 
+class FalsyAttribute(Attribute):
+    """A description that is falsy (think of a container-like field): only
+    None means 'not defined here'."""
+
+    def __len__(self):
+        return 0
+
+
 class Observer:
     """A dependent of node k: looks at node k from inside the notification
     (everything node k answers must already follow its new __iro__) and, in
@@ -58,7 +66,7 @@ def mknode(I, i, bs, defs, mod, label=''):
     if True:
         attrs = {'__module__': mod}
         if defs[i]:
-            attrs['x'] = Attribute('x of %d%s' % (i, label))
+            attrs['x'] = (FalsyAttribute if i % 2 else Attribute)('x of %d%s' % (i, label))
             attrs['y%d' % i] = Attribute('only in %d' % i)
 
             def inv(ob, i=i):
